@@ -115,7 +115,8 @@ CHECKS = {
         level='other',
         text='Structural clauses: names and their spans come from the same bounds (parse_name / parse_token / their callers); the '
              'token span table grows exactly when the token set reports a new token; nothing but that table depends on first mention; every line break the '
-             'scanner recognises and moves over inside a loop that ends at the end of its line advances the line counter that loop compares; and '
+             'scanner recognises and moves over inside a loop that ends at the end of its line advances the line counter that loop compares; '
+             'inside a block comment the closing `/` is looked for only after a `*` (found the defect fixed in /repo 46ee60d); and '
              '"numbered densely from zero, every index the API returns is in range". Fields of the '
              'grammar object that an accessor indexes with a PIdx/TIdx/RIdx are found from the accessors\' MIR; in the constructor '
              'every vector flowing into such a field must end with the length of its class leader (the vector whose len() '
@@ -160,6 +161,21 @@ CHECKS = {
              'Two known findings (array nesting recursion; the action span built from a trimmed copy). Trusted: ' + TB,
         technique='per-loop cursor-progress analysis on MIR (symbolic cycle enumeration + interprocedural return-path evaluation), deny-list value-flow for unwrap, call-graph SCCs',
         ref='§4 C12, §3 A6'),
+    'C13': dict(
+        level='other',
+        text='Plumbing clauses of the code generators, decided on what they WRITE: the token sequences pushed by quote! are '
+             'reconstructed from the generators\' MIR and the value interpolated next to each generated name is traced to the '
+             'builder field it comes from. The generated lexerdef() assigns every field of LexFlags from the same-named field of '
+             'the flags the lexer was built with and falls back to that same field of the defaults; every generated parser run '
+             '(one per action kind) passes the builder\'s recovery setting to RTParserBuilder::recoverer; the generated reader '
+             'selects, per SerialisationFormat variant, the integer encoding the builder wrote that variant with; every generated '
+             'Lexeme arm of the action wrappers answers Err for a faulty (inserted) lexeme and Ok otherwise.',
+        note='NOT decided: that the generated and the run-time pipeline produce the same lexemes, values, errors and repairs for '
+             'every input (translation validation per generated program; needs both to be run). $-substitution and wrapper '
+             'argument order are not decided either (a slip there fails to compile or fails every compile-time test). Trusted: '
+             'the quote crate\'s expansion scheme (push_ident / push_<punct> / push_group / ToTokens::to_tokens in program order), ' + TB,
+        technique='reconstruction of generated token sequences from quote! expansions in MIR + def-use tracing of interpolated values',
+        ref='§4 C13, §3 A12'),
     'C14': dict(
         level='proof',
         text='Induction over the type closure: every workspace type reachable from YaccGrammar / StateTable has both codec impls, '
@@ -211,7 +227,8 @@ CHECKS = {
              'min/max cost accumulators keep the lower/higher candidate; the round loops of the cost functions have termination '
              'evidence (exit on an unchanged round, or cyclic rules finalised beforehand); a maximum is final only when no '
              'production of the rule is incomplete; the minimal-sentence generator stops scanning a production once it has '
-             'deferred to a rule (else the rest is emitted twice and out of order).',
+             'deferred to a rule (else the rest is emitted twice and out of order); the path query compares every edge it discovers with '
+             'the target (or skips only rules it marked right after comparing them).',
         note='A necessary condition for exactness and termination-at-the-fixed-point. That the transfer functions are right beyond the '
              'FIRST/nullable pairing is NOT decided (the pairing rule found a real FOLLOW defect, fixed in /repo 2a78056); '
              'nor is reachability; of minimal sentences only the defer-then-stop discipline (it found the defect fixed in /repo 4c9dae6); 1 known finding (rule_min_costs can hang / overflow on unit cycles and '
@@ -245,9 +262,11 @@ CHECKS = {
              'finite transducer (state = loop-carried small-domain locals, input = CR/LF/other), is bisimilar to "count every '
              'character except an LF right after a CR". No byte offset reaching Span::new or a slice bound is formed as '
              'str::lines()-item length + 1 (lines() strips CR LF too). Every library construction of a lexer hands over a line table '
-             'built from exactly the lexer\'s text: NewlineCache::from_str(text), or pieces that provably tile it (ghost-cursor argument).',
+             'built from exactly the lexer\'s text: NewlineCache::from_str(text), or pieces that provably tile it (ghost-cursor argument). '
+             'A lexer\'s line_col answers both ends of a span with the line table\'s query; no unchecked subtraction is made from the length of a '
+             'str::lines() item (it excludes the terminator a position may lie in).',
         note='A necessary condition of "the lines-of-span query never panics, including spans that end at a line start or at '
-             'the end of the text"; it found the out-of-bounds read fixed in /repo 707b1f1. NOT decided: that line '
+             'the end of the text"; it found the out-of-bounds read fixed in /repo 707b1f1 and the subtraction overflow fixed in 3bc64fc. NOT decided: that line '
              'numbers and returned byte ranges are the right ones, the str slicing done with them in lrlex/lrpar, '
              'the unwrap()s that rely on the same invariants. The inequality prover is in-house '
              '(Fourier-Motzkin refutation + one integer tightening step, rules/linarith.py); no solver is called. Trusted: '
@@ -271,9 +290,7 @@ CHECKS = {
         ref='§4 C20'),
 }
 
-NA = {
-    'C13': 'equivalence of compile-time and run-time pipelines is per-program translation validation and needs both to be run; statically visible parts are covered under C11/C14/C15',
-}
+NA = {}
 
 PENDING = 'static rule designed in DESIGN.md §4 but not implemented yet in this revision; not claimed until its check exists'
 
